@@ -87,7 +87,11 @@ void harness(void)
         if (text + i < parse.curr && text[i] == '\n')
             nl++;
     VP_ASSERT(parse.line_num == 1 + nl, "the line counter is the number of newlines passed");
+#if VP_LEN >= 5
     VP_COVER(first < VP_LEN && first >= 4, "something after a complete comment");
+#else
+    VP_COVER(first < VP_LEN && first >= 1, "something after white space");
+#endif
     VP_COVER(first == VP_LEN && text[0] == '/', "opt: unterminated comment");
     VP_COVER(care_eof && first < VP_LEN && text[first] == '\n', "opt: newline reported");
 }
